@@ -65,7 +65,11 @@ def do_kernel(c):
     u0 = [fr(x) for x in c['u0']]
     du0 = [fr(x) for x in c['du']]
     n = len(u0)
-    u = FVec([a + alpha * d for a, d in zip(u0, du0)])
+    # 'u' (optional): the value the kernel is handed instead of the exact u0 + alpha*du - the situation after
+    # rounding (u = fl(u0 + alpha du)); the property is still judged against the true start u0
+    perturbed = 'u' in c
+    ufull = [fr(x) for x in c['u']] if perturbed else [a + alpha * d for a, d in zip(u0, du0)]
+    u = FVec(ufull)
     du = FVec(du0)
     lower, upper = barr(c['lo'], NINF), barr(c['hi'], PINF)
     KERNELS[c['method']](u, du, alpha, lower, upper)
@@ -80,8 +84,8 @@ def do_kernel(c):
         for t in [alpha] + [alpha * Fraction(k, 4) for k in (2, 1, 0)]:
             for i in range(n):
                 w = Fraction(u1[i]) + (t - alpha) * Fraction(du1[i])
-                full = u0[i] + alpha * du0[i]
-                if not inb(w, los[i], his[i]):
+                full = ufull[i]
+                if not inb(w, los[i], his[i]) and not perturbed:
                     ok, sig = False, 'kernel-out-of-bounds:' + c['method']
                     msg = '_enforce_bounds_%s: entry %d = %s (step length %s) outside [%s, %s]; start %s, step %s, alpha %s' % (
                         c['method'], i, w, t, los[i], his[i], u0[i], du0[i], alpha)
@@ -93,7 +97,7 @@ def do_kernel(c):
                     break
             if not ok:
                 break
-    return {'res': res, 'ok': ok, 'msg': msg, 'sig': sig, 'kind': 'kernel:' + c['method']}
+    return {'res': res, 'ok': ok, 'msg': msg, 'sig': sig, 'kind': ('kernel-perturbed:' if perturbed else 'kernel:') + c['method']}
 
 
 # ------------------------------------------------------------------ real components
